@@ -277,6 +277,13 @@ class Program:
         self.folded_kept: set[tuple[str, str]] = set()  # new public methods that were folded into every library call site and kept as units of their own
         self._known = load_known()
         self._known_locals = load_known_locals()
+        try:
+            import json as _json
+
+            self._known_attrs = _json.load(open(os.path.join(os.path.dirname(os.path.abspath(__file__)), 'known_units.json'), encoding='utf-8')).get('attrs')
+        except Exception:
+            self._known_attrs = None
+        self.memos: dict[str, dict] = {}
         self._load()
 
     # ------------------------------------------------------------------ loading
@@ -347,6 +354,10 @@ class Program:
             self.fold_log.extend(fold_new_helpers(tree, rel, self._known))
             parsed.append((rel, src, tree))
         self._fold_across_modules(parsed)
+        from .memo import read_memos_cold
+
+        self.memos, mlog = read_memos_cold([(rel, tree) for rel, _s, tree in parsed], self._known_attrs)
+        self.fold_log.extend(mlog)
         for rel, src, tree in parsed:
             self.fold_log.extend(simplify_after_folding(tree, rel, self._known_locals))
             self.fold_log.extend(propagate_new_aliases(tree, rel, self._known_locals))
